@@ -323,6 +323,8 @@ def r5_all_children_pushed(ctx, rule):
         extra = []
         adopt = False
         for test, pol in conds:
+            while isinstance(test, ast.UnaryOp) and isinstance(test.op, ast.Not):
+                test, pol = test.operand, not pol          # (not X, False) is (X, True)
             if isinstance(test, ast.Call) and call_name(test) == 'self._are_you_my_child' and pol:
                 adopt = True
             elif 'len(self.grammar' in U(nb.inline(test)) if hasattr(nb, 'inline') else 'len(self.grammar' in U(test):
